@@ -294,9 +294,20 @@ class Interp:
     def static_test(self, t: ast.AST, env: Dict[str, Any], fn: FuncInfo) -> Optional[bool]:
         """`x is None` for a known-None / known-not-None argument."""
         if isinstance(t, ast.Compare) and len(t.ops) == 1 and isinstance(t.comparators[0], ast.Constant) \
-                and t.comparators[0].value is None and isinstance(t.left, ast.Name) and t.left.id in env:
-            is_none = env[t.left.id] is None
-            return is_none if isinstance(t.ops[0], ast.Is) else (not is_none if isinstance(t.ops[0], ast.IsNot) else None)
+                and t.comparators[0].value is None and isinstance(t.ops[0], (ast.Is, ast.IsNot)):
+            val = MISSING = object()
+            if isinstance(t.left, ast.Name) and t.left.id in env:
+                val = env[t.left.id]
+            elif isinstance(t.left, ast.Attribute) and isinstance(t.left.value, ast.Name) \
+                    and isinstance(env.get(t.left.value.id), tuple) and env[t.left.value.id][0] == 'self':
+                try:
+                    val = self.attribute(t.left, env, fn)
+                except ShapeUnknown:
+                    return None
+            if val is MISSING or isinstance(val, tuple):
+                return None
+            is_none = val is None
+            return is_none if isinstance(t.ops[0], ast.Is) else not is_none
         return None
 
     def assign(self, t: ast.AST, v: Any, env: Dict[str, Any], fn: FuncInfo) -> None:
@@ -320,7 +331,36 @@ class Interp:
                     env[t.value.id] = Arr([x.dim for x in v.items])
                     return
             raise ShapeUnknown('shape assignment %s' % norm(t))
+        if isinstance(t, ast.Attribute) and isinstance(t.value, ast.Name) and isinstance(env.get(t.value.id), tuple) \
+                and env[t.value.id][0] == 'self':
+            self.self_attrs[t.attr] = v
+            return
         raise ShapeUnknown('store to %s' % norm(t))
+
+    def initial_self_attr(self, attr: str) -> Any:
+        """Value an attribute has after construction when every constructor assigns the literal None to it."""
+        if self.self_class is None:
+            raise ShapeUnknown('attribute self.%s' % attr)
+        found = False
+        for k in self.M.mro(self.self_class):
+            init = k.methods.get('__init__')
+            if init is None:
+                continue
+            for n in ast.walk(init.node):
+                tg, val = [], None
+                if isinstance(n, ast.Assign):
+                    tg, val = n.targets, n.value
+                elif isinstance(n, ast.AnnAssign) and n.value is not None:
+                    tg, val = [n.target], n.value
+                for t in tg:
+                    if isinstance(t, ast.Attribute) and t.attr == attr and isinstance(t.value, ast.Name) and t.value.id == (init.self_name or 'self'):
+                        if isinstance(val, ast.Constant) and val.value is None:
+                            found = True
+                        else:
+                            raise ShapeUnknown('attribute self.%s' % attr)
+        if found:
+            return None
+        raise ShapeUnknown('attribute self.%s' % attr)
 
     # ------------------------------------------------------------------ expressions
     def ev(self, e: ast.AST, env: Dict[str, Any], fn: FuncInfo) -> Any:
@@ -369,6 +409,11 @@ class Interp:
         if isinstance(e.value, ast.Name) and isinstance(env.get(e.value.id), tuple) and env[e.value.id][0] == 'self':
             if e.attr in self.self_attrs:
                 return self.self_attrs[e.attr]
+            if self.self_class is not None and self.M.lookup_property(self.self_class, e.attr) is None \
+                    and self.M.lookup_method(self.self_class, e.attr) is None:
+                v = self.initial_self_attr(e.attr)
+                self.self_attrs[e.attr] = v
+                return v
             if self.self_class is not None:
                 p = self.M.lookup_property(self.self_class, e.attr)
                 if p is not None and p[0] is not None:
